@@ -14,6 +14,14 @@ func Memcpy(dst, src unsafe.Pointer, n uintptr) unsafe.Pointer {
 	return dst
 }
 
+// Memmove: Go's copy handles overlapping ranges.
+func Memmove(dst, src unsafe.Pointer, n uintptr) unsafe.Pointer {
+	if n > 0 {
+		copy(unsafe.Slice((*byte)(dst), n), unsafe.Slice((*byte)(src), n))
+	}
+	return dst
+}
+
 func Memset(dst unsafe.Pointer, c Int, n uintptr) unsafe.Pointer {
 	b := unsafe.Slice((*byte)(dst), n)
 	for i := range b {
